@@ -1,4 +1,5 @@
 import DatamonVerif.Lemmas.Cafs
+import DatamonVerif.Generated.Facts
 /-! C02 — object keys are a deterministic BLAKE2b tree hash of the content.
 
 `H` is a parameter: with `H := BLAKE2b` (the driver's instantiation, compared with the Go code and
@@ -279,6 +280,16 @@ theorem C02_key_injective (H : Hash) (L : Nat) (hL : 0 < L) (c1 c2 : Bytes)
     rwa [e1, e1] at this
   have hch := leafKeysFrom_inj H L _ _ 0 (chunks L c1) (chunks L c2) hleaf hlens hkeys
   rw [← flatten_chunks L hL c1, ← flatten_chunks L hL c2, hch]
+
+/-- the tree parameters the model's `H` is instantiated with (driver: fanout 0, depth 2, inner
+    size 64, leaf node depth 0 with the node offset and last-node flag passed in, root node depth 1
+    offset 0 last-node) are the ones written in `pkg/cafs/hasher.go` NOW, and the leaf-size bounds
+    are the ones the generators use (regenerated facts) -/
+theorem C02_facts :
+    Facts.cafsRootTree = "Fanout=0;MaxDepth=2;LeafSize=leafSize;NodeOffset=0;NodeDepth=1;InnerHashSize=blake2b.Size;IsLastNode=true" ∧
+    Facts.cafsLeafTree = "Fanout=0;MaxDepth=2;LeafSize=leafSize;NodeOffset=n;NodeDepth=0;InnerHashSize=blake2b.Size;IsLastNode=isLastNode" ∧
+    Facts.cafsMaxLeafSize = 5 * 1024 * 1024 ∧ Facts.cafsDefaultLeafSize = 2 * 1024 * 1024 ∧ rootParams 64 = ⟨64, 0, 1, true⟩ := by
+  refine ⟨rfl, rfl, by decide, by decide, rfl⟩
 
 /-- non-vacuity of the completion-order theorem -/
 example : assemble 3 [(2, [2]), (3, [3]), (1, [1])] = [[1], [2], [3]] := by decide
